@@ -356,6 +356,15 @@ func serFields(fs []parse.Field) string {
 // modifies the filter).
 var sharedFilter *benchproc.Filter
 
+// deferred, when non-nil, collects the second half of every case (everything that reads the Match
+// value) to be run later: a stream of results through one Filter, all Match values kept by the
+// caller and judged only at the end.
+var deferred *[]func()
+
+// expectKept, when non-nil, is what Filter.Apply left when the same result was filtered in place
+// while streaming over the Reader's reused Result (no Clone).
+var expectKept *string
+
 func runCase(id int, kind, expr string, rs *resSpec, projTexts []string, extraTags []string) (emitted bool) {
 	casePrinted := false
 	defer func() {
@@ -509,85 +518,141 @@ func runCase(id int, kind, expr string, rs *resSpec, projTexts []string, extraTa
 	if merr != nil {
 		bad("matcherr")
 	}
-	test := testBits(&m, n)
-	all, any := m.All(), m.Any()
-	if !sameValues(res.Values, pristine.Values) || string(res.Name) != string(pristine.Name) || !sameConfig(res.Config, pristine.Config) {
-		bad("match-modified-result")
-	}
-	// projected values (after the filter ran, as benchstat does)
-	var pv []string
-	for _, p := range projs {
-		key := p.Project(res)
-		for _, fld := range p.Fields() {
-			if fld.IsTuple {
-				continue
+	expect := expectKept
+	// everything below reads the Match value m; in a stream (deferred != nil) that happens only
+	// after ALL results of the stream have been matched, so m is a Match "retained by the caller"
+	finish := func() {
+		defer func() {
+			if r := recover(); r != nil {
+				hx.Printf("crash %d %s\n", id, strings.ReplaceAll(fmt.Sprint(r), "\n", " "))
 			}
-			pv = append(pv, key.Get(fld))
+		}()
+		test := testBits(&m, n)
+		all, any := m.All(), m.Any()
+		if !sameValues(res.Values, pristine.Values) || string(res.Name) != string(pristine.Name) || !sameConfig(res.Config, pristine.Config) {
+			bad("match-modified-result")
 		}
-	}
-	// a second Match must not disturb the first and must agree with it
-	m2, _ := f.Match(res)
-	if testBits(&m2, n) != test || m2.All() != all || m2.Any() != any {
-		bad("second-match-differs")
-	}
-	if testBits(&m, n) != test || m.All() != all || m.Any() != any {
-		bad("first-match-changed-by-second")
-	}
-	// … also when the later call is about a DIFFERENT result of the same size (units rotated by
-	// one position): the Match the caller holds must not share its mask with later calls
-	other := res.Clone()
-	for i := range other.Values {
-		j := (i + 1) % n
-		other.Values[i].Unit, other.Values[i].OrigUnit = res.Values[j].Unit, res.Values[j].OrigUnit
-	}
-	other.Name = append(other.Name[:0:0], "Other"...)
-	f.Match(other)
-	held := testBits(&m, n)
-	if held != test || m.All() != all || m.Any() != any {
-		bad("match-aliased-by-a-later-call")
-	}
-	oob := ""
-	for _, i := range []int{-1, n, n + 1, n + 31, n + 32} {
-		oob += b01(m.Test(i))
-	}
-	// Match.Apply on a copy
-	r1 := res.Clone()
-	flag1 := m.Apply(r1)
-	// Filter.Apply on another copy
-	r2 := res.Clone()
-	flag2, aerr := f.Apply(r2)
-	if aerr != nil {
-		bad("applyerr")
-	}
-	// kept measurements are unchanged copies of the originals
-	for _, v := range r2.Values {
-		i := int(v.Value)
-		if i < 0 || i >= n || v != pristine.Values[i] {
-			bad("apply-altered-a-measurement")
+		// projected values (after the filter ran, as benchstat does)
+		var pv []string
+		for _, p := range projs {
+			key := p.Project(res)
+			for _, fld := range p.Fields() {
+				if fld.IsTuple {
+					continue
+				}
+				pv = append(pv, key.Get(fld))
+			}
 		}
+		// a second Match must not disturb the first and must agree with it
+		m2, _ := f.Match(res)
+		if testBits(&m2, n) != test || m2.All() != all || m2.Any() != any {
+			bad("second-match-differs")
+		}
+		if testBits(&m, n) != test || m.All() != all || m.Any() != any {
+			bad("first-match-changed-by-second")
+		}
+		// … also when the later call is about a DIFFERENT result of the same size (units rotated by
+		// one position): the Match the caller holds must not share its mask with later calls
+		other := res.Clone()
+		for i := range other.Values {
+			j := (i + 1) % n
+			other.Values[i].Unit, other.Values[i].OrigUnit = res.Values[j].Unit, res.Values[j].OrigUnit
+		}
+		other.Name = append(other.Name[:0:0], "Other"...)
+		f.Match(other)
+		held := testBits(&m, n)
+		if held != test || m.All() != all || m.Any() != any {
+			bad("match-aliased-by-a-later-call")
+		}
+		// the same *Result object, changed in place between two calls (what streaming over the
+		// Reader's reused Result does): the answer must be that of a fresh copy, not a remembered one
+		if n >= 2 {
+			for i := range other.Values {
+				j := (i + 2) % n
+				other.Values[i].Unit, other.Values[i].OrigUnit = res.Values[j].Unit, res.Values[j].OrigUnit
+			}
+			ma, _ := f.Match(other)
+			mb, _ := f.Match(other.Clone())
+			if testBits(&ma, n) != testBits(&mb, n) || ma.All() != mb.All() || ma.Any() != mb.Any() {
+				bad("match-depends-on-result-identity")
+			}
+		}
+		oob := ""
+		for _, i := range []int{-1, n, n + 1, n + 31, n + 32} {
+			oob += b01(m.Test(i))
+		}
+		// Match.Apply on a copy
+		r1 := res.Clone()
+		flag1 := m.Apply(r1)
+		// Filter.Apply on another copy
+		r2 := res.Clone()
+		flag2, aerr := f.Apply(r2)
+		if aerr != nil {
+			bad("applyerr")
+		}
+		// Apply rewrites res.Values IN PLACE: a second slice header on the same backing array sees
+		// the compaction (back= is the whole backing array afterwards; the model's applyInPlace)
+		r3 := res.Clone()
+		view := r3.Values
+		m.Apply(r3)
+		back := idxList(view)
+		// Filter.Apply twice is idempotent (the Match is recomputed from the filtered result)
+		r4 := res.Clone()
+		f.Apply(r4)
+		once := idxList(r4.Values)
+		again, _ := f.Apply(r4)
+		if idxList(r4.Values) != once || (len(r4.Values) > 0 && !again) {
+			bad("filter-apply-not-idempotent")
+		}
+		// all of that happened on clones: the result handed to Match is still what it was
+		if !sameValues(res.Values, pristine.Values) || string(res.Name) != string(pristine.Name) || !sameConfig(res.Config, pristine.Config) {
+			bad("apply-on-a-clone-changed-the-original")
+		}
+		// streaming over the Reader's reused Result without Clone gave the same kept measurements
+		if expect != nil && *expect != idxList(r2.Values) {
+			bad("reader-stream-apply:" + *expect)
+		}
+		// kept measurements are unchanged copies of the originals
+		for _, v := range r2.Values {
+			i := int(v.Value)
+			if i < 0 || i >= n || v != pristine.Values[i] {
+				bad("apply-altered-a-measurement")
+			}
+		}
+		if string(r2.Name) != string(pristine.Name) || !sameConfig(r2.Config, pristine.Config) {
+			bad("apply-modified-name-or-config")
+		}
+		pvS := hx.HexListS(pv)
+		// htest: the first Match read after the second call / the second Match (the driver computes
+		// both in its heap model, where masks are cells updated in place)
+		htest := "na"
+		if kind != "p" {
+			htest = testBits(&m, n) + "/" + testBits(&m2, n)
+		}
+		// the t* fields are the same real observations once more: the driver computes them a second
+		// time from the expression TEXT (parser model of C07 composed with the evaluator model)
+		hx.Printf("obs %d new=ok tnew=ok perr=%s pv=%s n=%d test=%s oob=%s all=%s any=%s apply=%s flag=%s fapply=%s fflag=%s back=%s omiss=0 lmiss=0 glue=%s ttest=%s tall=%s tany=%s tapply=%s tflag=%s htest=%s\n",
+			id, perrS, pvS, n, test, oob, b01(all), b01(any), idxList(r1.Values), b01(flag1), idxList(r2.Values), b01(flag2), back, glue,
+			test, b01(all), b01(any), idxList(r2.Values), b01(flag2), htest)
+		// what the property speaks about; for n = 0 All/Any/flag are a boundary (see notes/C06.md)
+		allS, anyS, flagS := "n0", "n0", "n0"
+		if n > 0 {
+			allS, anyS, flagS = b01(all), b01(any), b01(flag2)
+		}
+		// test= is what the caller's Match says at the end, after the later calls above
+		// in a reader stream the kept measurements are those of the in-place Apply on the Reader's
+		// reused Result
+		applyS := idxList(r2.Values)
+		if expect != nil {
+			applyS = *expect
+		}
+		hx.Printf("sobs %d pv=%s test=%s oob=%s all=%s any=%s apply=%s flag=%s\n", id, pvS, held, oob, allS, anyS, applyS, flagS)
 	}
-	if string(r2.Name) != string(pristine.Name) || !sameConfig(r2.Config, pristine.Config) {
-		bad("apply-modified-name-or-config")
+	if deferred != nil {
+		*deferred = append(*deferred, finish)
+	} else {
+		finish()
 	}
-	pvS := hx.HexListS(pv)
-	// htest: the first Match read after the second call / the second Match (the driver computes
-	// both in its heap model, where masks are cells updated in place)
-	htest := "na"
-	if kind != "p" {
-		htest = testBits(&m, n) + "/" + testBits(&m2, n)
-	}
-	// the t* fields are the same real observations once more: the driver computes them a second
-	// time from the expression TEXT (parser model of C07 composed with the evaluator model)
-	hx.Printf("obs %d new=ok tnew=ok perr=%s pv=%s n=%d test=%s oob=%s all=%s any=%s apply=%s flag=%s fapply=%s fflag=%s omiss=0 lmiss=0 glue=%s ttest=%s tall=%s tany=%s tapply=%s tflag=%s htest=%s\n",
-		id, perrS, pvS, n, test, oob, b01(all), b01(any), idxList(r1.Values), b01(flag1), idxList(r2.Values), b01(flag2), glue,
-		test, b01(all), b01(any), idxList(r2.Values), b01(flag2), htest)
-	// what the property speaks about; for n = 0 All/Any/flag are a boundary (see notes/C06.md)
-	allS, anyS, flagS := "n0", "n0", "n0"
-	if n > 0 {
-		allS, anyS, flagS = b01(all), b01(any), b01(flag2)
-	}
-	// test= is what the caller's Match says at the end, after the later calls above
-	hx.Printf("sobs %d pv=%s test=%s oob=%s all=%s any=%s apply=%s flag=%s\n", id, pvS, held, oob, allS, anyS, idxList(r2.Values), flagS)
 	return true
 }
 
@@ -1044,6 +1109,117 @@ func variant(r *hx.Rand, rs *resSpec) *resSpec {
 	return out
 }
 
+func resize(rs *resSpec, n int) *resSpec {
+	out := &resSpec{name: rs.name, cfg: rs.cfg}
+	for i := 0; i < n; i++ {
+		if len(rs.vals) > 0 {
+			out.vals = append(out.vals, rs.vals[i%len(rs.vals)])
+		} else {
+			out.vals = append(out.vals, valSpec{"ns/op", ""})
+		}
+	}
+	return out
+}
+
+// runStream: two Filters built from the SAME text are used alternately over a stream of DIFFERENT
+// results; every Match value is kept and read only after the last result went through.
+func runStream(id *int, expr string, stream []*resSpec, tags []string) {
+	fa, err := benchproc.NewFilter(expr)
+	if err != nil {
+		return
+	}
+	fb, _ := benchproc.NewFilter(expr)
+	var later []func()
+	deferred = &later
+	for k, rs := range stream {
+		sharedFilter = fa
+		if k%3 == 1 {
+			sharedFilter = fb
+		}
+		if runCase(*id, "f", expr, rs, nil, tags) {
+			*id++
+		}
+	}
+	deferred, sharedFilter = nil, nil
+	for _, fn := range later {
+		fn()
+	}
+}
+
+var streamSizes = []int{1, 33, 65, 70, 2, 0, 32, 64, 96, 100, 5, 31, 97, 3}
+
+// readerStream: the expression is applied IN PLACE to the Reader's reused Result, line after line,
+// without Clone; the kept measurements must equal what a fresh copy of each line gives.
+func readerStream(id *int, expr string) {
+	var text strings.Builder
+	text.WriteString("goos: linux\n")
+	shapes := [][]string{{"ns/op", "B/op", "MB/s"}, {"ns/op"}, {"widgets", "ns/op", "us/op", "B/op", "allocs/op"}, {"MB/s", "KB/s"}, {"ns/op", "ns/op2", "B/op"}}
+	for li := 0; li < 12; li++ {
+		fmt.Fprintf(&text, "BenchmarkS%d/size=%d-8 1", li%3, li%4)
+		sh := shapes[(li*2+li/2)%len(shapes)]
+		cnt := []int{3, 3, 33, 33, 65, 65, 2, 2, 70, 70, 1, 1}[li%12]
+		for k := 0; k < cnt; k++ {
+			fmt.Fprintf(&text, " %d %s", k, sh[k%len(sh)])
+		}
+		text.WriteString("\n")
+	}
+	f, err := benchproc.NewFilter(expr)
+	if err != nil {
+		return
+	}
+	idx := func(v benchfmt.Value) int {
+		if v.OrigUnit != "" {
+			return int(v.OrigValue)
+		}
+		return int(v.Value)
+	}
+	// pass 1: independent copies of every line
+	var specs []*resSpec
+	rd := benchfmt.NewReader(strings.NewReader(text.String()), "c06stream")
+	for rd.Scan() {
+		res, ok := rd.Result().(*benchfmt.Result)
+		if !ok {
+			continue
+		}
+		rs := &resSpec{name: string(res.Name)}
+		for _, c := range res.Config {
+			rs.cfg = append(rs.cfg, benchfmt.Config{Key: c.Key, Value: append([]byte(nil), c.Value...), File: c.File})
+		}
+		for _, v := range res.Values {
+			rs.vals = append(rs.vals, valSpec{v.Unit, v.OrigUnit})
+		}
+		specs = append(specs, rs)
+	}
+	// pass 2: streaming, filtering the Reader's own Result in place
+	var kept []string
+	rd = benchfmt.NewReader(strings.NewReader(text.String()), "c06stream")
+	for rd.Scan() {
+		res, ok := rd.Result().(*benchfmt.Result)
+		if !ok {
+			continue
+		}
+		f.Apply(res)
+		ps := make([]string, len(res.Values))
+		for i, v := range res.Values {
+			ps[i] = strconv.Itoa(idx(v))
+		}
+		k := "-"
+		if len(ps) > 0 {
+			k = strings.Join(ps, ",")
+		}
+		kept = append(kept, k)
+	}
+	for j, rs := range specs {
+		if j < len(kept) {
+			expectKept = &kept[j]
+		}
+		if runCase(*id, "f", expr, rs, nil, []string{"corpus", "readerstream"}) {
+			*id++
+		}
+		expectKept = nil
+	}
+}
+
 func replayCase(id int, l string) {
 	get := func(k string) string { v, _ := hx.Field(l, k); return v }
 	rs := &resSpec{name: string(hx.UnHex(get("name")))}
@@ -1124,6 +1300,28 @@ func main() {
 			}
 		}
 	}
+	// permanent streams: sizes 1, 33, 65, 70, 2, … through two Filters of the same text
+	for _, e := range []string{".unit:ns/op", "-.unit:ns/op", ".unit:(ns/op OR B/op) -.name:Bar", "-(.unit:/^B/ OR -goos:linux)", ".name:Foo .unit:sec/op OR .unit:x"} {
+		base := corpusRes(corpusCase{name: "Foo", n: 7})
+		var stream []*resSpec
+		for k, n := range streamSizes {
+			rs := resize(base, n)
+			if k%2 == 1 {
+				rs.vals = append([]valSpec(nil), rs.vals...)
+				for i := range rs.vals {
+					if i%4 == k%4 {
+						rs.vals[i] = valSpec{"x", ""}
+					}
+				}
+				rs.name = "Bar"
+			}
+			stream = append(stream, rs)
+		}
+		runStream(&id, e, stream, []string{"corpus", "stream"})
+	}
+	for _, e := range readerExprs {
+		readerStream(&id, e)
+	}
 	// hx.NewRand(salt) starts at seed*G+salt+1 and steps by G, so the streams of seeds s and s+1
 	// are the same stream shifted by one draw and the generated cases re-align after the first
 	// case. Derive the salt from the seed through the generator's output function instead.
@@ -1149,6 +1347,16 @@ func main() {
 		}
 		if runCase(id, kind, expr, rs, pts, nil) {
 			id++
+		}
+		// a stream: two Filters of the same text alternately over 5-9 DIFFERENT results of very
+		// different sizes, every Match kept and read only at the end
+		if kind == "f" && r.Chance(1, 20) {
+			var stream []*resSpec
+			for k := 5 + r.Intn(5); k > 0; k-- {
+				other := genRes(r)
+				stream = append(stream, resize(other, hx.Pick(r, streamSizes)))
+			}
+			runStream(&id, expr, stream, []string{"stream"})
 		}
 		// one Filter object reused on variants of the result (same base units, other written units)
 		if kind == "f" && r.Chance(1, 6) {
